@@ -422,6 +422,23 @@ theorem cols_isolated {db db' : Db} {r : Nat} {T : Txn} {tok : Nat}
 theorem cols_writer_well_built {t : Table} (hw : t.WF) (src : List Row) : WellBuiltCols t (mk t (.pmrg src) 0).1 :=
   wellBuiltCols_mk hw src
 
+/-- NO OLD IMAGE NEXT TO THE NEW ONE.  The rows an update writes are the images (`v + 100`) of exactly the rows it kills, in
+    scan order; an upsert writes the source image of every row it kills plus the unmatched source rows.  Together with
+    `no_lost_update` (the killed rows are invisible after the commit, the new fragment holds exactly these rows) an updated
+    logical row is visible exactly once. -/
+theorem update_images {t : Table} (hw : t.WF) (keys : List Nat) (tok : Nat) :
+    (mkUpdate t keys tok).1.newRows
+      = ((mkUpdate t keys tok).2.filterMap t.rowAt).map (fun r => { r with v := r.v + 100 }) := by
+  show (t.rowsWhere _).map _ = ((t.addrsWhere _).filterMap t.rowAt).map _
+  rw [rows_of_addrs hw]
+
+theorem merge_images {t : Table} (hw : t.WF) (src : List Row) (tok : Nat) :
+    (mkMerge t src tok).1.newRows
+      = ((mkMerge t src tok).2.filterMap t.rowAt).map (srcFor src)
+          ++ src.filter (fun s => !(t.scan.any (fun r => r.key == s.key))) := by
+  show (t.rowsWhere _).map _ ++ _ = ((t.addrsWhere _).filterMap t.rowAt).map _ ++ _
+  rw [rows_of_addrs hw]
+
 /-- the three writers build well-built transactions, so `Reach.commit` covers `DeleteBuilder`, `UpdateBuilder` and the
     full-schema upsert of `MergeInsertBuilder` -/
 theorem writers_well_built {t : Table} (hw : t.WF) (op : OpKind) (hop : op.movesRows = true) (tok : Nat) :
